@@ -218,7 +218,15 @@ def c18_cases(ctx, binary, root, rnd, n, use_strace=False):
             cwd, args = os.path.join(proj, "contracts"), ["--path", "."]
         else:
             cwd, args = os.path.join(proj, "contracts", "sub"), ["--path", ".."]
-        stale = rnd.random() < 0.6
+        # every fifth case: a configuration that selects no pattern at all, so that the run has no finding — the
+        # report must still be (re)written
+        if k % 5 == 4:
+            cfg = os.path.join(d, "none.toml")
+            open(cfg, "w").write("optimizations = []\nvulnerabilities = []\nqa = []\n")
+            args = args + ["--toml", cfg]
+            if mode == "cwd_parent_default":
+                args = args + ["--path", os.path.join(proj, "contracts")]
+        stale = rnd.random() < 0.6 if k % 5 != 4 else (k % 10 == 4)
         if stale:
             open(os.path.join(cwd, "solstat_report.md"), "w").write("STALE REPORT\n- Fake.sol:1\n" * (rnd.randrange(1, 50) if rnd.random() < 0.5 else 40000))
         before = snapshot(d)
@@ -256,7 +264,16 @@ def c18_cases(ctx, binary, root, rnd, n, use_strace=False):
         if any(c != 0 for c, _ in reports):
             problems.append(f"exit codes {[c for c, _ in reports]}")
         if len({hashlib.sha1(r or b'').hexdigest() for _, r in reports}) != 1:
-            problems.append("repeated runs produce different reports (a previous report influences the next, or appended)")
+            # is it the previous report, or does the binary render differently from run to run anyway (C13's business)?
+            fresh = []
+            for _ in range(8):
+                rp = os.path.join(cwd, "solstat_report.md")
+                if os.path.exists(rp):
+                    os.unlink(rp)
+                fresh.append(run_solstat(binary, cwd, args)[1])
+            seen_fresh = {hashlib.sha1(r or b'').hexdigest() for r in fresh}
+            if not {hashlib.sha1(r or b'').hexdigest() for _, r in reports} <= seen_fresh:
+                problems.append("repeated runs produce different reports (a previous report influences the next, or appended)")
         if reports[0][1] is not None and b"STALE REPORT" in reports[0][1]:
             problems.append("the previous report's content survives (appended, not overwritten)")
         if writes is not None and writes - {os.path.normpath(os.path.join(cwd, "solstat_report.md"))}:
